@@ -4,6 +4,7 @@ import Mqtt5V.Model.PidAlloc
 import Mqtt5V.Model.Mutex
 import Mqtt5V.Model.SerialOrder
 import Mqtt5V.Model.Utf8
+import Driver.Codec
 /-! `mdrv`: the model behind a one-line-in / one-line-out protocol (DESIGN.md Appendix B).
 Imports Model/Spec/Gen only (no Mathlib, so it links as a native executable). -/
 open Mqtt5V
@@ -58,6 +59,8 @@ def u8Step (ws : List String) : String :=
 def pureStep (ws : List String) : String :=
   match ws with
   | "u8" :: rest => u8Step rest
+  | "enc" :: _ => Driver.Codec.step ws
+  | "varlen" :: _ => Driver.Codec.step ws
   | ["ord", "lt", p1, s1, p2, s2] =>
     match p1.toNat?, s1.toNat?, p2.toNat?, s2.toNat? with
     | some p1, some s1, some p2, some s2 =>
